@@ -11,7 +11,7 @@ R-FLAG-WIRE    CLI flag flip_y reaches parameter flip_y and swap_xy reaches swap
 """
 import itertools
 
-from . import ir
+from . import comp, ir
 from .report import m_replace
 
 META = {
@@ -156,6 +156,7 @@ class WordExtractor:
 
 
 def rules(ck, P):
+    comp.levels_rule(ck, P, "R-SELECT", ("set_zoom_min", "set_zoom_max", "intersect_geo_bbox", "intersect", "add_border"))
     conv = [a for q, a in P.adts.items() if q.endswith("::TilesConvertReader")]
     if not ck.anchor("R-D4", "TilesConvertReader", conv, 1):
         return
